@@ -382,6 +382,12 @@ func runBoot(c BootCase, rec *h.Rec) error {
 	} else {
 		rec.Class("floor=formula")
 	}
+	// When scale*MessageRatio exceeds Q0 (small Q0 sets with the small-ring message-ratio correction) ScaleDown brings the
+	// message DOWN to Q0/MessageRatio before the circuit: the bits lost there are not available to any floor.
+	if lost := float64(p1.LogDefaultScale()+b.btp.Mod1ParametersLiteral.LogMessageRatio) - math.Round(math.Log2(float64(p1.Q()[0]))); lost > 0 && c.Cfg.Iter == nil {
+		floor -= lost
+		rec.Class("floor-reduced-by-scale-down")
+	}
 	rec.Note("floor", floor)
 	for i := range outs {
 		o := &outs[i]
